@@ -23,5 +23,19 @@ Theorem C14_prune_irrelevant : forall f initial cps,
 Proof. exact prune_irrelevant. Qed.
 Print Assumptions C14_prune_irrelevant.
 
+(* repeating any checkpoint with no intervening change records nothing for the file ... *)
+Theorem C14_repeat_records_nothing : forall f,
+  cf_from_checkpoint f = true -> cf_equal f = true -> decide_entry f = NoEntry.
+Proof. exact repeat_records_nothing. Qed.
+Print Assumptions C14_repeat_records_nothing.
+
+(* ... and an extra human checkpoint of a file no AI session touched cannot change what is read back *)
+Theorem C14_human_only_entry_is_inert : forall f file computed initial cps1 cps2 k,
+  cf_human f = true -> cf_prior_ai f = false -> cf_has_initial f = false ->
+  va_from_log initial (cps1 ++ mkCheckpoint k (entry_of_decision (decide_entry f) file computed) :: cps2)
+  = va_from_log initial (cps1 ++ cps2).
+Proof. exact human_only_entry_is_inert. Qed.
+Print Assumptions C14_human_only_entry_is_inert.
+
 Example C14_nonvacuous : last_not_skipped [97] wit_log /\ last_not_skipped [98] wit_log.
 Proof. exact wit_log_last. Qed.
